@@ -783,35 +783,66 @@ func c19SharedCore(p *an.Prog, r *an.Report, full, core string, acquire int) {
 
 func c19TwinSerializers(p *an.Prog, r *an.Report) {
 	pairs := []struct {
-		full, partial string
-		byParam       bool
-		dropped       string
+		full, fullExported, partial string
+		byParam                     bool
+		dropped                     string
 	}{
-		{"router_info.serializeRouterInfoFields", "router_info.(*RouterInfo).serializeWithoutSignature", false, "signature"},
+		{"router_info.serializeRouterInfoFields", "router_info.(RouterInfo).Bytes", "router_info.(*RouterInfo).serializeWithoutSignature", false, "signature"},
 		// the count byte is derived from len(leases) in the argument-taking twin
-		{"lease_set.(LeaseSet).Bytes", "lease_set.serializeLeaseSetData", true, "signature,leaseCount"},
-		{"offline_signature.(*OfflineSignature).SignedData", "offline_signature.buildSignedData", true, ""},
+		{"lease_set.(LeaseSet).Bytes", "lease_set.(LeaseSet).Bytes", "lease_set.serializeLeaseSetData", true, "signature,leaseCount"},
+		{"offline_signature.(*OfflineSignature).SignedData", "offline_signature.(*OfflineSignature).SignedData", "offline_signature.buildSignedData", true, ""},
 	}
 	for _, pr := range pairs {
-		ff, pf := p.Func(pr.full), p.Func(pr.partial)
-		if ff == nil || pf == nil {
-			r.Fail("C19.T1: anchors %s / %s not found", pr.full, pr.partial)
+		ff := p.Func(pr.full)
+		if ff == nil {
+			ff = p.Func(pr.fullExported) // the unexported helper was renamed: start from the exported serializer
+		}
+		if ff == nil {
+			r.Fail("C19.T1: anchor %s not found", pr.fullExported)
 			continue
 		}
 		fo, fraw := serFieldOrder(p, ff)
-		po, praw := serOrder(p, pf, pr.byParam)
 		var want []string
 		for _, f := range fo {
 			if !strings.Contains(","+pr.dropped+",", ","+f+",") {
-				want = append(want, f)
+				want = append(want, strings.ToLower(f))
 			}
 		}
-		for i, f := range po {
-			po[i] = strings.ToLower(f)
+		orderOf := func(f *ssa.Function) ([]string, string) {
+			po, praw := serOrder(p, f, pr.byParam)
+			for i, x := range po {
+				po[i] = strings.ToLower(x)
+			}
+			return po, praw
 		}
-		for i, f := range want {
-			want[i] = strings.ToLower(f)
+		pf := p.Func(pr.partial)
+		if pf == nil {
+			// renamed: the twin is the other function of the package that returns bytes and emits
+			// exactly the wanted order; if none does, the structure's signed data is not a prefix-free
+			// re-emission of its fields
+			var cands []*ssa.Function
+			for _, f := range p.RepoFns {
+				if f == ff || an.FnPkgPath(f) != an.FnPkgPath(ff) || len(f.Blocks) == 0 || f.Signature.Results().Len() == 0 || f.Signature.Results().At(0).Type().String() != "[]byte" || (f.Object() != nil && f.Object().Exported()) {
+					continue
+				}
+				for _, byParam := range []bool{pr.byParam, !pr.byParam} {
+					po, _ := serOrder(p, f, byParam)
+					for i, x := range po {
+						po[i] = strings.ToLower(x)
+					}
+					if len(po) >= 3 && strings.Join(po, ",") == strings.Join(want, ",") {
+						cands = append(cands, f)
+						break
+					}
+				}
+			}
+			if len(cands) == 0 {
+				r.Check(false, "C19.T1", ff.Name()+"~signed-data/order", p.FnPos(ff), fmt.Sprintf("some unexported serializer of the package emits the fields of %s in the same order, minus {%s}", ff.Name(), pr.dropped), "full: "+strings.Join(fo, ","), "no candidate found (the named twin "+pr.partial+" no longer exists)")
+				continue
+			}
+			pf = cands[0]
 		}
+		po, praw := orderOf(pf)
 		ok := strings.Join(want, ",") == strings.Join(po, ",") && len(po) >= 3
 		r.Check(ok, "C19.T1", ff.Name()+"~"+pf.Name()+"/order", p.FnPos(pf), fmt.Sprintf("the signed-data serializer %s emits the fields of %s in the same order, minus {%s}", pf.Name(), ff.Name(), pr.dropped),
 			"full: "+strings.Join(fo, ","), "partial: "+strings.Join(po, ","), "raw full: "+fraw, "raw partial: "+praw)
